@@ -156,6 +156,38 @@ def run(M, rep, tier, only=None):
     R8 = rep.rule("C03.R8", "every legal name (non-empty, no slash) passes the name check; empty names and names with a slash do not", floor=10,
                   technique="decision-table extraction of the name validation, evaluated on representative names")
     name_table(M, rep, R8)
+    R10 = rep.rule("C03.R10", "length, iteration, indexing, name/id lookup and membership of a container all read the container's own group",
+                   floor=8, technique="receiver of every storage event on all abstract paths of the container protocol")
+    c10_ = Ctx(M, coarse=False)
+    for cn10 in ("Container", "LinkContainer"):
+        for nm10 in ("__len__", "__iter__", "__getitem__", "__contains__"):
+            f10 = c10_.member(cn10, nm10)
+            if f10 is None:
+                continue
+            bad10 = None
+            try:
+                ps10 = c10_.paths(f10, cn10, max_paths=6000)
+            except Budget:
+                continue
+            for p in ps10:
+                for e in p.events:
+                    if e.kind == "layer" and e.recv is not None and e.op.split(".")[-1] in (
+                            "get_by_name", "get_by_id", "get_by_pos", "get_by_id_or_name", "__contains__", "__iter__", "__len__") and \
+                            not any(x == ("attr", ("self",), "_backend") for x in subterms(e.recv.t)) and \
+                            any(x and x[0] == "attr" and x[1] == ("self",) for x in subterms(e.recv.t)):
+                        bad10 = (p, e)
+                for a, v in p.decisions:
+                    if any(x == ("attr", ("self",), "_itemstore") for x in subterms(a)):
+                        bad10 = bad10 or (p, None, show(a)[:80])
+            if bad10 is not None and bad10[1] is None:
+                rep.bad(R10, "%s.%s" % (cn10, nm10), "%s.%s decides what it returns by looking into the store the links point into (%s), not "
+                        "into the list's own group: entries that iteration shows (e.g. linked nested sources) are not found by name" % (
+                            cn10, nm10, bad10[2]), site=f10.file + ":%d" % f10.node.lineno, detail=describe_path(bad10[0]))
+                continue
+            rep.check(R10, "%s.%s" % (cn10, nm10), bad10 is None, "%s.%s looks an entry up in %s, not in the container's own group: what it finds "
+                      "differs from what iteration, length and positional access of the same container show" % (
+                          cn10, nm10, show(bad10[1].recv.t)[:60] if bad10 else ""), site=bad10[1].site if bad10 else None,
+                      detail=describe_path(bad10[0]) if bad10 else None)
     R9 = rep.rule("C03.R9", "lookup by id returns only a child whose stored entity_id was compared equal to the id asked for", floor=1,
                   technique="guard of every returning path of the layer's id lookup (raw mode)")
     hg9 = M.classes.get("H5Group")
